@@ -1310,6 +1310,17 @@ class FortranFile:
                 word_range = find_word_in_line(line, find_word_lower)
                 if word_range.start >= 0:
                     line_no += i + 1
+                    # get_code_line cuts off the leading "&" of a continuation line
+                    match = None
+                    if not self.fixed:
+                        match = FRegex.FREE_CONT.match(
+                            self.get_line(line_no, pp_content)
+                        )
+                    if match:
+                        word_range = Range(
+                            word_range.start + match.end(0),
+                            word_range.end + match.end(0),
+                        )
                     return line_no, word_range
         return line_no, word_range
 
